@@ -81,6 +81,10 @@ def pool() -> list[bytes]:
             out.append(R.build_update(attrs=a, nlri=n))
     for n in nlri_sets():
         out.append(R.build_update(withdrawn=n))
+    # one UPDATE carrying both withdrawn routes and an announcement (legal, unusual), same attribute blocks as above
+    for a in attr_blocks()[:6]:
+        out.append(R.build_update(withdrawn=bytes([24, 203, 0, 113]), attrs=a, nlri=bytes([24, 192, 0, 2])))
+        out.append(R.build_update(withdrawn=bytes([16, 172, 16]), attrs=a, nlri=bytes([24, 192, 0, 2, 24, 192, 0, 3])))
     out.append(R.eor())
     out.append(R.eor(2, 1))
     return out
